@@ -263,6 +263,7 @@ class Slices:
         self.facts = facts
         self.buffers = {}          # lid -> (name, alloc factors)
         self.slice_lets = {}       # lid -> init expr  (locals bound to slices)
+        self.split_lets = {}       # lid -> (base expr, offset expr or None)  (halves of split_at_mut)
         for x in walk(body):
             if x.get("k") == "Let" and x["pat"].get("k") == "PBind" and "init" in x:
                 fs = _alloc_factors(sym, x["init"])
@@ -270,6 +271,15 @@ class Slices:
                     self.buffers[x["pat"]["lid"]] = (x["pat"]["name"], fs)
                 else:
                     self.slice_lets[x["pat"]["lid"]] = x["init"]
+            if x.get("k") == "Let" and x["pat"].get("k") == "PTuple" and "init" in x and len(x["pat"]["ps"]) == 2:
+                # let (head, tail) = slice.split_at_mut(k)
+                c = strip(x["init"])
+                if c.get("k") == "MCall" and c.get("name") in ("split_at_mut", "split_at") and c["args"]:
+                    h, t = x["pat"]["ps"]
+                    if h.get("k") == "PBind":
+                        self.split_lets[h["lid"]] = (c["recv"], None)
+                    if t.get("k") == "PBind":
+                        self.split_lets[t["lid"]] = (c["recv"], c["args"][0])
 
     def slice_of(self, e, depth=0):
         """-> (buffer lid, [offset exprs]) or None"""
@@ -282,6 +292,11 @@ class Slices:
                 return e["lid"], []
             if e["lid"] in self.slice_lets:
                 return self.slice_of(self.slice_lets[e["lid"]], depth + 1)
+            if e["lid"] in self.split_lets:
+                base_e, off = self.split_lets[e["lid"]]
+                base = self.slice_of(base_e, depth + 1)
+                if base:
+                    return base[0], base[1] + ([off] if off is not None else [])
             return None
         if k == "Block":
             return self.slice_of(e.get("expr"), depth + 1) if e.get("expr") else None
